@@ -135,6 +135,9 @@ func c10cases(tier string) []c10case {
 			}
 			if nb == 2 {
 				cs = append(cs, c10case{host, kinds, []string{"p", "d2", "d1", "a"}, "hold-activation"})
+				// only the SECOND boundary event's event inside the activation window (for kinds `in` that is the
+				// non-interrupting one: the host must still be requested and answered)
+				cs = append(cs, c10case{host, kinds, []string{"p", "d2", "a"}, "hold-activation"})
 				cs = append(cs, c10case{host, kinds, []string{"p", "a", "d1", "d2"}, "hold-forward"})
 				cs = append(cs, c10case{host, kinds, []string{"p", "d1", "d2", "a"}, "hold-listener"})
 			}
